@@ -16,14 +16,14 @@ NOTES = {
             "probes at arbitrary tree positions (runner)"),
     "C05": ("reader counter = number of queued reactions; zero listeners: nothing queued, no data entity; counter kernel (done exactly at the n-th decrement, saturating)",
             "the decrement paths through the runner (normal, postponed, aborted, discarded at root)"),
-    "C06": ("all ReactCache::revoke_* kernels (first entry of that reactor under that key in that list only; emptied key dropped, sibling lists never), stale despawn ids, EntityReactor::remove queues the reconstructed revoke, tokens list exactly the bundle's triggers; completeness for duplicate registrations FAILS = known finding F2",
-            "immediacy inside a tree follows from per-command flush (environment); revoke_reactor routing and EntityReactors::remove kernels exceeded the caps and were dropped"),
+    "C06": ("all ReactCache::revoke_* kernels (first entry of that reactor under that key in that list only; emptied key dropped, sibling lists never), stale despawn ids, EntityReactors::remove (every entry of that reactor under that reaction type, nothing else), revoke_reactor does not stop at a dead entity's trigger, EntityReactor::remove queues the reconstructed revoke, tokens have one entry per bundle member incl. duplicates; completeness for duplicate registrations FAILS = known finding F2",
+            "immediacy inside a tree follows from per-command flush (environment); revoke_reactor on populated tables exceeded the caps (only the minimal past-a-dead-entity walk is decided)"),
     "C07": ("mode -> handle kind and exactly-once collection; reference count over clones in three drop orders; in-flight despawn reactions keep the reactor; dead-entity despawn registration releases the handle; revoke kernels never drop neighbours' handles",
             "the runner's garbage-collection points; EntityReactors dropped with its entity"),
-    "C08": ("DespawnTracker::drop reports its entity once; register_despawn_reactor: dead entity stores nothing, live entity one handle + one tracker, an existing tracker is never replaced (no spurious report)",
-            "removal detection is Bevy's RemovedComponents + scheduler; schedule_removal_reactions / schedule_despawn_reactions exceeded the caps; histories between polls"),
-    "C10": ("real Arc + Drop signal: nothing receivable while a clone exists, exactly one message after the last drop (three drop orders, second entity's signal alive); clones of the despawner share the channel",
-            "threads (Kani has none; the channel is a stub); garbage_collect_entities on a world (exceeded the caps); hierarchies"),
+    "C08": ("DespawnTracker::drop reports its entity once; register_despawn_reactor: dead entity stores nothing, live entity one handle + one tracker, an existing tracker is never replaced (no spurious report); schedule_despawn_reactions: one reaction per stored handle, entry consumed (at most once per entity), channel drained; schedule_removal_reactions: one poll reacts to every reported removal",
+            "removal detection itself is Bevy's RemovedComponents + scheduler (environment); histories between polls; type-wide removal lists inside a poll exceeded the caps"),
+    "C10": ("real Arc + Drop signal: nothing receivable while a clone exists, exactly one message after the last drop (three drop orders, second entity's signal alive); clones of the despawner share the channel; garbage_collect_entities despawns exactly the released entities, is not stopped by an already-dead id, never touches an entity with a live clone, is idempotent",
+            "threads (Kani has none; the channel is a stub); hierarchies beyond one level"),
     "C11": ("tracker quiescence steps (pending = prepared - started, flag clear after end), postponement buffer strands nothing, callback present again after insert, dispatch leaves the cached reaction buffer empty",
             "the runner's root-level discard/reset and every abort path"),
     "C12": ("per-system FIFO of all four trackers as an inductive step from any pending list <= 4; postponement buffer FIFO",
@@ -36,8 +36,8 @@ NOTES = {
             "Reactor/EntityReactor::add and EntityLocal (need applied registration closures); multi-step histories"),
     "C17": ("spawned_syscall, syscall(_with_validation), syscall_once, named_syscall: output returned, commands applied on return, state persists per key over up to three calls and is independent between keys, validation on first use only, missing or running spawned system => Err and nothing runs, self-despawning system still returns its output",
             "nested / re-entrant calls and calls made from commands of other calls"),
-    "C18": ("dead-target behaviour, without panic, of: entity-event dispatch (the dead target's own listeners do not run), despawn registration (nothing stored, handle released), stale despawn-revoke ids, ReactCommands::insert on a dead id, spawned system that despawns itself",
-            "targets dying while commands for them are postponed or mid-dispatch (runner); revoke_reactor past a dead entity exceeded the caps"),
+    "C18": ("dead-target behaviour, without panic, of: entity-event dispatch (the dead target's own listeners do not run), despawn registration (nothing stored, handle released), stale despawn-revoke ids, revoke_reactor past a dead entity, the collector with dead ids, ReactCommands::insert / EntityReactor::add on a dead id",
+            "targets dying while commands for them are postponed or mid-dispatch (runner)"),
 }
 
 NOT_APPLICABLE = {
